@@ -658,11 +658,34 @@ def _obs_un(case):
             o["res"] = {"vals": [it.id(e) for e in r._underlying]}
             o["fresh"] = r is not v
             o["kept"] = [it.id(x) for x in v._underlying] == xs
+            _chain(o, r)
     except Exception as e:
         o["exc"] = err_name(e)
         o["msg"] = f"{type(e).__name__}: {e}"[:160]
     o["tab"] = [[k, v_] for k, v_ in tab.items()]
     return o
+
+
+def _chain(o, r):
+    """the result is an operand like any other: one more elementwise step on it, chosen by the class of its elements (a
+    broadcast method of that class)"""
+    from serif import Vector
+    live = [e for e in r._underlying if e is not None]
+    if live and len({type(e) for e in live}) == 1 and type(live[0]) in _CHAIN:
+        nxt, fn = _CHAIN[type(live[0])]
+        want = [None if e is None else fn(e) for e in r._underlying]
+        try:
+            r2 = getattr(r, nxt)()
+            got = list(r2._underlying) if isinstance(r2, Vector) else ["not a vector"]
+        except Exception as e2:                              # noqa: BLE001
+            got = [f"raises {type(e2).__name__}"]
+        o["chain"] = {"step": nxt, "got": [repr(g) for g in got], "want": [repr(w_) for w_ in want]}
+
+
+import datetime as _dtm                                     # noqa: E402
+_CHAIN = {int: ("bit_length", lambda x: x.bit_length()), str: ("upper", lambda x: x.upper()), float: ("is_integer", lambda x: x.is_integer()),
+          _dtm.date: ("toordinal", lambda x: x.toordinal()), _dtm.datetime: ("date", lambda x: x.date()),
+          _dtm.timedelta: ("total_seconds", lambda x: x.total_seconds()), bytes: ("hex", lambda x: x.hex())}
 
 
 def _obs_tab(case):
@@ -788,6 +811,7 @@ def _obs_bc(case):
             o["res"] = {"vals": [it.id(e) for e in r._underlying]}
             o["fresh"] = r is not v
             o["kept"] = [it.id(x) for x in v._underlying] == xs
+            _chain(o, r)
     except Exception as e:
         o["exc"] = err_name(e)
         o["msg"] = f"{type(e).__name__}: {e}"[:160]
@@ -958,6 +982,10 @@ def oracle(case, obs):
     got = [r.get("vals") for r in res] if op == "tab" else res.get("vals")
     if got != ref:
         return f"{op}-wrong-elements: {_what(case)}: result ids {got}, Python's own scalar results {ref}"
+    ch = obs.get("chain")
+    if ch and ch["got"] != ch["want"]:
+        return (f"bc-chain: {_what(case)} is right, but the result is not a usable operand: `{ch['step']}` on it gives {ch['got']}, "
+                f"Python's own elementwise results are {ch['want']}")
     if not obs.get("fresh", True):
         return f"{op}-not-a-new-vector: {_what(case)} returned one of its operands"
     if not obs.get("kept", True):
